@@ -88,12 +88,20 @@ def _dfs(mod, cfg, spec, hist, depth, res):
         if hist:
             res.outcome(w.last_outcome if hasattr(w, 'last_outcome')
                         else 'step')
-        n, nontrivial, more = mod.node(w, hist, cfg, res)
-        viol += more
-        res.cov['evaluations'] += n
-        if nontrivial:
-            res.cov['distinct_nontrivial'] += 1
-        res.fps.add(fingerprint(w))
+        if not viol:
+            try:
+                n, nontrivial, more = mod.node(w, hist, cfg, res)
+            except Exception as e:      # noqa: B902
+                import traceback
+                n, nontrivial, more = 0, False, [(
+                    'error', 'oracle:%s' % type(e).__name__,
+                    dict(error=repr(e)[:300],
+                         where=traceback.format_exc()[-600:]))]
+            viol += more
+            res.cov['evaluations'] += n
+            if nontrivial:
+                res.cov['distinct_nontrivial'] += 1
+            res.fps.add(fingerprint(w))
         if len(res.samples) < 2 and len(hist) == depth:
             res.samples.append(dict(history=[list(o) for o in hist],
                                     oracle_comparisons=n))
@@ -129,12 +137,18 @@ def explore(rep, modname, cfg, depth, workers, seed, split=2):
             res.cov['traces_validated_against_impl'] += 1
             res.cov['transitions'] += len(hist)
             viol = list(w.violations)
-            n, nontrivial, more = mod.node(w, hist, cfg, res)
-            viol += more
-            res.cov['evaluations'] += n
-            if nontrivial:
-                res.cov['distinct_nontrivial'] += 1
-            res.fps.add(fingerprint(w))
+            if not viol:
+                try:
+                    n, nontrivial, more = mod.node(w, hist, cfg, res)
+                except Exception as e:      # noqa: B902
+                    n, nontrivial, more = 0, False, [(
+                        'error', 'oracle:%s' % type(e).__name__,
+                        dict(error=repr(e)[:300]))]
+                viol += more
+                res.cov['evaluations'] += n
+                if nontrivial:
+                    res.cov['distinct_nontrivial'] += 1
+                res.fps.add(fingerprint(w))
             if viol:
                 for c, s, d in viol:
                     res.violation(cfg['prop'], c, s, dict(
